@@ -259,51 +259,70 @@ func caseRelay(r *mon.Rec, idx int) {
 				fail("relayrepl-error:"+src.tag, "NewRelayReplFromRelayForw: %v", err)
 				return
 			}
-			var node dhcpv6.DHCPv6 = rr
-			for k := 0; k < depth; k++ {
-				rel, ok := node.(*dhcpv6.RelayMessage)
-				if !ok {
-					fail("relayrepl-depth:"+src.tag, "reply chain ends at level %d, forward chain has depth %d", k, depth)
-					return
+			var rels []*dhcpv6.RelayMessage
+			walk := func(tag string) bool {
+				rels = rels[:0]
+				var node dhcpv6.DHCPv6 = rr
+				for k := 0; k < depth; k++ {
+					rel, ok := node.(*dhcpv6.RelayMessage)
+					if !ok {
+						fail("relayrepl-depth:"+tag, "reply chain ends at level %d, forward chain has depth %d", k, depth)
+						return false
+					}
+					if rel.MessageType != dhcpv6.MessageTypeRelayReply {
+						fail("relayrepl-type:"+tag, "level %d has type %v", k, rel.MessageType)
+						return false
+					}
+					rels = append(rels, rel)
+					if !rel.LinkAddr.Equal(levels[k].link) || !rel.PeerAddr.Equal(levels[k].peer) {
+						fail("relayrepl-addresses:"+tag, "level %d: link/peer %v/%v, forward chain has %v/%v", k, rel.LinkAddr, rel.PeerAddr, levels[k].link, levels[k].peer)
+						return false
+					}
+					wantI, wantR := "<absent>", "<absent>"
+					if levels[k].iid != nil {
+						wantI = optWire(dhcpv6.OptInterfaceID(levels[k].iid))
+					}
+					if levels[k].rid != nil {
+						wantR = optWire(levels[k].rid)
+					}
+					if gi := optWire(rel.GetOneOption(dhcpv6.OptionInterfaceID)); gi != wantI {
+						fail("relayrepl-interface-id:"+tag, "level %d: interface-id %s, forward level has %s", k, gi, wantI)
+						return false
+					}
+					if gr := optWire(rel.GetOneOption(dhcpv6.OptionRemoteID)); gr != wantR {
+						fail("relayrepl-remote-id:"+tag, "level %d: remote-id %s, forward level has %s", k, gr, wantR)
+						return false
+					}
+					nx, err := dhcpv6.DecapsulateRelay(rel)
+					if err != nil {
+						fail("relayrepl-decap:"+tag, "level %d: %v", k, err)
+						return false
+					}
+					node = nx
 				}
-				if rel.MessageType != dhcpv6.MessageTypeRelayReply {
-					fail("relayrepl-type:"+src.tag, "level %d has type %v", k, rel.MessageType)
-					return
+				if node.IsRelay() {
+					fail("relayrepl-depth:"+tag, "reply chain is deeper than the forward chain (%d)", depth)
+					return false
 				}
-				if !rel.LinkAddr.Equal(levels[k].link) || !rel.PeerAddr.Equal(levels[k].peer) {
-					fail("relayrepl-addresses:"+src.tag, "level %d: link/peer %v/%v, forward chain has %v/%v", k, rel.LinkAddr, rel.PeerAddr, levels[k].link, levels[k].peer)
-					return
+				if proj.M6(node).String() != replyTree {
+					fail("relayrepl-inner:"+tag, "innermost message of the relay-reply is not the given reply (%s)", rdesc)
+					return false
 				}
-				wantI, wantR := "<absent>", "<absent>"
-				if levels[k].iid != nil {
-					wantI = optWire(dhcpv6.OptInterfaceID(levels[k].iid))
-				}
-				if levels[k].rid != nil {
-					wantR = optWire(levels[k].rid)
-				}
-				if gi := optWire(rel.GetOneOption(dhcpv6.OptionInterfaceID)); gi != wantI {
-					fail("relayrepl-interface-id:"+src.tag, "level %d: interface-id %s, forward level has %s", k, gi, wantI)
-					return
-				}
-				if gr := optWire(rel.GetOneOption(dhcpv6.OptionRemoteID)); gr != wantR {
-					fail("relayrepl-remote-id:"+src.tag, "level %d: remote-id %s, forward level has %s", k, gr, wantR)
-					return
-				}
-				nx, err := dhcpv6.DecapsulateRelay(rel)
-				if err != nil {
-					fail("relayrepl-decap:"+src.tag, "level %d: %v", k, err)
-					return
-				}
-				node = nx
+				return true
 			}
-			if node.IsRelay() {
-				fail("relayrepl-depth:"+src.tag, "reply chain is deeper than the forward chain (%d)", depth)
+			if !walk(src.tag) {
 				return
 			}
-			if proj.M6(node).String() != replyTree {
-				fail("relayrepl-inner:"+src.tag, "innermost message of the relay-reply is not the given reply (%s)", rdesc)
-				return
+			// the reply chain is a live value: every relay agent on the way back may add an option to its own level
+			// (innermost first, as the levels are built); all the other levels stay what they are
+			lv := append([]*dhcpv6.RelayMessage{}, rels...)
+			for k := len(lv) - 1; k >= 0; k-- {
+				lv[k].AddOption(&dhcpv6.OptionGeneric{OptionCode: dhcpv6.OptionCode(65020 + k%8), OptionData: []byte{byte(k), 0xad}})
+				if !walk(src.tag + "-after-adding-an-option-at-level-" + fmt.Sprint(min(k, 3))) {
+					return
+				}
 			}
+			r.Count("reply_levels_updated_after_build", len(lv))
 		}
 		// building a reply consumes nothing: the forward chains (the built one and the decoded one) are what they were
 		if proj.M6(cur).String() != chainTree || proj.M6(wired).String() != wiredTree || proj.M6(reply).String() != replyTree {
